@@ -68,6 +68,30 @@ def complexity_consistent(c):
     return cx in ("Plain", "NonGroup")
 
 
+HOOKS = ("verif:preprocess ", "verif:split_off_back ", "verif:lowerer_op ")
+
+
+def collect_all(pairs, chunk=1500):
+    """compile every (src, target) once with logging on; returns ({hook prefix: [(src, target, json, compiled_ok)]}, n_compiles, n_ok)"""
+    out = {h: [] for h in HOOKS}
+    n_ok = 0
+    for i in range(0, len(pairs), chunk):
+        part = pairs[i:i + chunk]
+        reqs = [{"src": s, "target": t, "want": [], "msg_prefix": "verif:"} for s, t in part]
+        for rq, a in zip(reqs, harness("log", reqs)):
+            ok = "ok" in a
+            n_ok += ok
+            for e in a.get("entries", []):
+                m = e.get("Message") or ""
+                for h in HOOKS:
+                    if m.startswith(h):
+                        if h == "verif:preprocess " and '"pass":"reorder"' not in m:
+                            break
+                        out[h].append((rq["src"], rq["target"], json.loads(m[len(h):]), ok))
+                        break
+    return out, len(pairs), n_ok
+
+
 def collect(pairs):
     """run the compiles [(src, target)] with the preprocess hook on; returns (events, n_compiles, n_ok) -- events: list of (src, target, pass-json, ok)"""
     reqs = [{"src": s, "target": t, "want": [], "msg_prefix": PRE.strip()} for s, t in pairs]
@@ -81,11 +105,14 @@ def collect(pairs):
     return out, len(reqs), sum(1 for a in ans if "ok" in a)
 
 
-def run_reorder(ck, srcs, one_target_srcs=(), targets=("sql.sqlite", "sql.generic")):
+def run_reorder(ck, srcs, one_target_srcs=(), targets=("sql.sqlite", "sql.generic"), events=None):
     """srcs are compiled for every target, one_target_srcs (the exhaustive correspondence programs, whose pipelines
     differ in frame arguments only) for the first"""
-    pairs = [(s, t) for s in dict.fromkeys(srcs) for t in targets] + [(s, targets[0]) for s in dict.fromkeys(one_target_srcs)]
-    events, n_comp, n_ok = collect(pairs)
+    if events is None:
+        pairs = [(s, t) for s in dict.fromkeys(srcs) for t in targets] + [(s, targets[0]) for s in dict.fromkeys(one_target_srcs)]
+        events, n_comp, n_ok = collect(pairs)
+    else:
+        events, n_comp, n_ok = events
     calls = [(s, t, e) for s, t, e, _ in events if e.get("pass") == "reorder"]
     ck.coverage["reorder_hook"] = {"compiles": n_comp, "compiled_ok": n_ok, "reorder_calls": len(calls)}
     if n_ok and not calls:
@@ -210,21 +237,26 @@ def is_windowed(it):
     return it is not None and it[0] == 4 and it[2] == 2
 
 
-def run_split(ck, srcs, targets=("sql.sqlite",)):
+def run_split(ck, srcs, targets=("sql.sqlite",), events=None):
     """every call of split_off_back during the compiles: does the model of the complexity walk stop where the
     implementation stopped?  Judged for the calls in which a windowed Compute is kept, is the stopping point, or lies
     between the two stopping points; the others are counted (they belong to the owner of the whole walk)"""
-    reqs = [{"src": s, "target": t, "want": [], "msg_prefix": SOB.strip()} for s in dict.fromkeys(srcs) for t in targets]
-    ans = harness("log", reqs)
-    events = []
-    n_ok = 0
-    for rq, a in zip(reqs, ans):
-        n_ok += "ok" in a
-        for e in a.get("entries", []):
-            m = e.get("Message")
-            if m and m.startswith(SOB):
-                events.append((rq["src"], rq["target"], json.loads(m[len(SOB):])))
-    ck.coverage["split_hook"] = {"compiles": len(reqs), "compiled_ok": n_ok, "split_off_back_calls": len(events)}
+    if events is None:
+        reqs = [{"src": s, "target": t, "want": [], "msg_prefix": SOB.strip()} for s in dict.fromkeys(srcs) for t in targets]
+        ans = harness("log", reqs)
+        events = []
+        n_ok = 0
+        for rq, a in zip(reqs, ans):
+            n_ok += "ok" in a
+            for e in a.get("entries", []):
+                m = e.get("Message")
+                if m and m.startswith(SOB):
+                    events.append((rq["src"], rq["target"], json.loads(m[len(SOB):])))
+        n_comp = len(reqs)
+    else:
+        evs, n_comp, n_ok = events
+        events = [(s, t, e) for s, t, e, _ in evs]
+    ck.coverage["split_hook"] = {"compiles": n_comp, "compiled_ok": n_ok, "split_off_back_calls": len(events)}
     if n_ok and not events:
         ck.violation("hook verif:split_off_back produced no event on %d successful compiles: the model of the complexity walk is not tied to the code" % n_ok,
                      {"kind": "hook-missing", "hook": "verif:split_off_back"}, no_input=True)
